@@ -183,7 +183,7 @@ fn edge_tail_strategy() -> BoxedStrategy<InvCase> {
 
 pub fn run(ctx: &Ctx) {
     let t = ctx.tier;
-    let limit = t.pick(3000u64, 30_000);
+    let limit = t.pick(3000u64, 100_000);
     ctx.enumerated(
         "small-exhaustive",
         "inv",
@@ -228,7 +228,7 @@ pub fn run(ctx: &Ctx) {
         check_inv,
     );
     let max_len = t.pick(400usize, 1500);
-    let n = t.pick(100_000u64, 1_000_000);
+    let n = t.pick(100_000u64, 3_000_000);
     ctx.generated("random", "inv", n, "1..max digits, scales +-2000, both signs, p weighted to 1..5 and 100", move || free_strategy(max_len), check_inv);
     ctx.generated(
         "machine-word-coefficients",
